@@ -145,8 +145,13 @@ impl Gen {
             3 => self.rng.range(21, 253) as usize,
             _ => self.rng.range(0, 20) as usize,
         };
-        match self.rng.below(3) {
-            0 => self.rng.bytes(n),
+        match self.rng.below(12) {
+            0..=3 => self.rng.bytes(n),
+            // zero octets only (padding of embedded responders), text ending in zero octets, text whose last octets are
+            // not UTF-8 (Latin-1 `caf\xe9`, a code point cut short)
+            4 => vec![0u8; n.min(1 + self.rng.below(4) as usize).max(1).min(255)],
+            5 => { let mut b: Vec<u8> = (0..n.max(2) - 2).map(|_| *self.rng.pick(b"abcxyz")).collect(); b.extend_from_slice(&[0, 0]); b.truncate(255); b }
+            6 => { let mut b: Vec<u8> = (0..n.saturating_sub(3)).map(|_| *self.rng.pick(b"cafe ")).collect(); b.extend_from_slice(*self.rng.pick(&[&b"\xe9"[..], b"\xe9x", b"\xe2\x82", b"\xf0\x9f\x98", b"\xc3"])); b.truncate(255); b }
             _ => (0..n).map(|_| *self.rng.pick(b"abc=;xyz \xc3\xa9\xff")).collect(),
         }
     }
